@@ -358,14 +358,16 @@ pub const STR_VALS: [&[u8]; 20] = [b"", b"a", b"bc", b"hello", b"\x00\xff", b"\x
 pub const MEMBERS: [&[u8]; 7] = [b"m", b"n", b"", b"\xc3\xa9", b"10", b"a b", b"M"];
 pub const FIELDS: [&[u8]; 5] = [b"f", b"g", b"", b"\xc3\xa9", b"n"];
 
-pub struct Gen<'a> { pub rng: &'a mut Rng, pub now: u64, pub deadlines: Vec<u64>, pub lens: Vec<i64> }
+/// hot = error-provoking mode (C17): keys drawn uniformly (type conflicts), extreme integers and indices more often
+pub struct Gen<'a> { pub rng: &'a mut Rng, pub now: u64, pub deadlines: Vec<u64>, pub lens: Vec<i64>, pub hot: bool }
 
 impl<'a> Gen<'a> {
     pub fn pick<T: Clone>(&mut self, l: &[T]) -> T { l[self.rng.gen_range(0..l.len())].clone() }
     pub fn chance(&mut self, p: f64) -> bool { self.rng.gen_bool(p) }
     /// a key: mostly from the family's home keys, sometimes any key (type conflicts)
     pub fn key(&mut self, home: &[&str]) -> String {
-        if self.chance(0.8) { self.pick(home).to_string() } else { self.pick(&KEYS).to_string() }
+        let p = if self.hot { 0.45 } else { 0.8 };
+        if self.chance(p) { self.pick(home).to_string() } else { self.pick(&KEYS).to_string() }
     }
     pub fn val(&mut self) -> B { self.pick(&STR_VALS).to_vec() }
     pub fn member(&mut self) -> B { self.pick(&MEMBERS).to_vec() }
@@ -381,7 +383,8 @@ impl<'a> Gen<'a> {
         }
     }
     pub fn int(&mut self) -> i64 {
-        match self.rng.gen_range(0..12) {
+        let top = if self.hot { 8 } else { 12 };
+        match self.rng.gen_range(0..top) {
             0 => i64::MAX, 1 => i64::MIN, 2 => i64::MAX - 1, 3 => i64::MIN + 1, 4 => 0, 5 => -1,
             _ => self.rng.gen_range(-20..=20),
         }
